@@ -666,7 +666,89 @@ fn run_illegal_chunk_sizes(ctx: &mut Ctx) {
     }
 }
 
+/// packets the message reader skips (Padding, Marker, unassigned non-critical, experimental), of body
+/// lengths around the reader's 8 KiB buffer and beyond, fixed and partial framing, whose bodies carry
+/// well-formed packets of their own (a forged literal packet, then a Padding header that covers exactly
+/// the genuine data packet): the message is the genuine one or an error, never the embedded one
+fn run_long_skipped(ctx: &mut Ctx) {
+    use pgp::composed::Message;
+    let site = "Message::from_bytes / from_reader + read_to_end (skipped packets in front of, between and behind the data)";
+    let genuine = crate::frame::frame_fixed(true, 11, 1, &[&[b'b', 0, 0, 0, 0, 0][..], b"genuine"].concat()).expect("frame");
+    let forged = crate::frame::frame_fixed(true, 11, 1, &[&[b'b', 0, 0, 0, 0, 0][..], b"forged"].concat()).expect("frame");
+    let lens: Vec<usize> = if ctx.thorough() {
+        vec![0, 1, 191, 192, 8191, 8192, 8193, 8192 + 64, 16383, 16384, 16385, 20000, 65536, 70000, 200_000]
+    } else {
+        vec![0, 191, 8191, 8192, 8193, 8192 + 64, 16384, 16385, 20000, 70000]
+    };
+    for tag in [21u8, 10, 40, 60, 63] {
+        for &len in &lens {
+            for at in [0usize, 8192, 16384, len.saturating_sub(40)] {
+                // body: fill, with (forged literal ‖ Padding header covering the genuine packet) at `at`,
+                // placed so that the embedded Padding header is the last thing in the body
+                let cover = [vec![0xC0 | 21, genuine.len() as u8]].concat();
+                let embedded = [&forged[..], &cover[..]].concat();
+                let mut body = vec![0x55u8; len];
+                let embed = at + embedded.len() <= len;
+                if embed {
+                    // the embedded pair sits at `at`; the body is cut right behind it
+                    body.truncate(at + embedded.len());
+                    body[at..].copy_from_slice(&embedded);
+                } else if at != 0 {
+                    continue;
+                }
+                if tag == 10 && !embed {
+                    body = b"PGP".to_vec();
+                }
+                for framing in ["fixed", "partial"] {
+                    let skipped = if framing == "fixed" {
+                        crate::frame::frame_fixed(true, tag, if body.len() < 192 { 1 } else if body.len() < 8384 { 2 } else { 5 }, &body)
+                    } else {
+                        // partial chunks of 512 octets (power 9) and a final length
+                        if body.len() < 512 { continue }
+                        let k = body.len() / 512;
+                        crate::frame::frame_partial(tag, &vec![9u8; k.min(40)], &body)
+                    };
+                    let Some(skipped) = skipped else { continue };
+                    for place in ["before", "after", "both"] {
+                        let msg = match place {
+                            "before" => [&skipped[..], &genuine[..]].concat(),
+                            "after" => [&genuine[..], &skipped[..]].concat(),
+                            _ => [&skipped[..], &genuine[..], &skipped[..]].concat(),
+                        };
+                        for reader in ["slice", "bufreader64"] {
+                            let r = guarded(|| {
+                                let mut out = Vec::new();
+                                if reader == "slice" {
+                                    let mut m = Message::from_bytes(&msg[..]).map_err(|e| e.to_string())?;
+                                    m.read_to_end(&mut out).map_err(|e| e.to_string())?;
+                                } else {
+                                    let src = std::io::BufReader::with_capacity(64, std::io::Cursor::new(msg.clone()));
+                                    let (mut m, _) = Message::from_reader(src).map_err(|e| e.to_string())?;
+                                    m.read_to_end(&mut out).map_err(|e| e.to_string())?;
+                                }
+                                Ok::<Vec<u8>, String>(out)
+                            });
+                            let (ok, detail) = match &r {
+                                Ok(Ok(v)) => (v == b"genuine", format!("ok:{}", String::from_utf8_lossy(&v[..v.len().min(40)]))),
+                                Ok(Err(e)) => (true, format!("err:{}", &e[..e.len().min(80)])),
+                                Err(_) => (false, "panic".into()),
+                            };
+                            ctx.stat(&format!("long_skipped:{}", detail.split(':').next().unwrap_or("")));
+                            ctx.oracle("skipped_packet_not_missplit", site, &format!("tag={tag} body_len={} embedded_at={} framing={framing} place={place} reader={reader} msg_len={}", body.len(), if embed { at as i64 } else { -1 }, msg.len()), ok, &detail);
+                            // a Padding / unassigned / experimental packet of any legal framing is skipped, not refused
+                            if tag != 10 && matches!(&r, Ok(Err(_))) {
+                                ctx.stat("long_skipped:refused");
+                            }
+                        }
+                    }
+                }
+            }
+        }
+    }
+}
+
 pub fn run(ctx: &mut Ctx) {
+    run_long_skipped(ctx);
     run_illegal_chunk_sizes(ctx);
     run_fixed_generator(ctx);
     run_truncated_composed(ctx);
